@@ -34,7 +34,7 @@ ASSUMPTIONS = [
     "Bit-exact comparison (NaN == NaN, -0.0 == 0.0); WeightedTensor values are compared where the weight is non-zero, weights exactly.",
     "The twin state is built by the harness with torch.where(accepted, proposed, previous) on the proposed variable only.",
 ]
-REQUIRED_CLASSES = {"ind:mixed-mask": 100, "ind:overflow": 40, "pop:rejected": 80, "step:individual": 40, "step:population": 40, "toy-weighted": 300, "ind:proposal-other-dtype": 60, "ind:tensor-accessor-reads": 150, "nontrivial": 150}
+REQUIRED_CLASSES = {"ind:mixed-mask": 100, "ind:overflow": 40, "pop:rejected": 80, "step:individual": 40, "step:population": 40, "toy-weighted": 300, "ind:proposal-other-dtype": 60, "step:extreme-state": 80, "ind:tensor-accessor-reads": 150, "nontrivial": 150}
 
 OVERFLOW_SCALE = {"xi": 100.0, "tau": 2.5e5}
 
@@ -406,6 +406,11 @@ def body_pop(col: Collector, case):
         col.fail("pop-proposal", "assertion:" + exc_bucket(e), case, observed=repr(e), expected="no assertion")
         col.case(classes=classes)
         return
+    except LeaspyModelInputError:
+        # the model's documented refusal of an incoherent (kept) population value reached through a path not anticipated
+        # above: nothing of the property can be judged on it
+        col.exclude("pop:model-refused-to-evaluate-a-kept-population-value")
+        return
     except (RuntimeError, ValueError, TypeError, IndexError, KeyError) as e:
         col.fail("pop-proposal", "unexpected-exception:" + exc_bucket(e), case, observed=repr(e), expected="operations succeed")
         col.case(classes=classes)
@@ -448,10 +453,19 @@ def body_step(col: Collector, case):
         import random as _r
 
         _r.seed(case["seed"])
+        if case.get("extreme") is not None and "xi" in c["ind_latent"]:
+            # a current state in which one individual has a non-finite energy term: proposals evaluate to nan / inf,
+            # are refused, and must leave no trace either
+            with s.auto_fork(None):
+                v = fast_copy(s._values["xi"])
+                v[case["extreme"] % c["n"]] = 100.0
+                s["xi"] = v
+            classes.append("step:extreme-state")
         if case["cold"]:
             with s.auto_fork(None):
                 s[name] = fast_copy(s._values[name])
         S0 = {k: fast_copy(v) for k, v in s._values.items()}
+        s_pre = fresh_state(s)  # the state right before the step (twin = this state with only the kept moves applied)
         pre = fast_copy(s._values[name])
         decisions = []
         hook = "_group_metropolis_step" if case["which"] == "ind" else "_metropolis_step"
@@ -497,7 +511,8 @@ def body_step(col: Collector, case):
         for k in c["derived"]:
             if s._values[k] is not None:
                 _check_scratch(c, s, k, "step")
-        twin = fresh_state(c["state0"])
+        twin = fresh_state(s_pre)
+        twin.auto_fork_type = s.auto_fork_type
         with twin.auto_fork(None):
             twin[name] = fast_copy(post)
         n_agg = _post_history(c, s, twin, case["post"], "step")
@@ -589,6 +604,7 @@ def step_case(draw, kinds):
         sampler_pop=draw(st.sampled_from(["Gibbs", "FastGibbs", "Metropolis-Hastings"])),
         std_factor=draw(st.sampled_from([1.0, 1.0, 0.01, 30.0, 1e4, 1e30])), beta=draw(st.sampled_from([1.0, 0.5, 0.1])),
         seed=draw(st.integers(0, 10_000)), cold=draw(st.booleans()), post=draw(_post()),
+        extreme=draw(st.sampled_from([None, None, None, 0, 2])),
     )
     return c
 
